@@ -61,9 +61,14 @@ def findPrefix (cands : List (List SymN)) : List SymN :=
 
 abbrev GroupOrd := List (Name × List RuleN) → List (Name × List RuleN)
 
+/-- the distinct elements in order of first occurrence -/
+def firstOccs : List Name → List Name
+  | [] => []
+  | a :: l => a :: (firstOccs l).filter (fun b => b ≠ a)
+
 /-- groups in order of first occurrence; the real order is `ord` of this -/
 def groupByLhs (rs : List RuleN) : List (Name × List RuleN) :=
-  (rs.map (·.lhs)).eraseDups.map fun A => (A, rs.filter (fun r => r.lhs = A))
+  (firstOccs (rs.map (·.lhs))).map fun A => (A, rs.filter (fun r => r.lhs = A))
 
 def findLongestPrefixes (ord : GroupOrd) (rs : List RuleN) : List (Name × List SymN) :=
   (ord (groupByLhs rs)).filterMap fun (A, g) =>
